@@ -90,10 +90,13 @@ prop('C09', COMMON +
      'create_comment_reference result, L3 no whole drop of a comment-carrying node) except on paths that report a syntax '
      'error. ID-COMMENT-PAIR: an identifier the printer prints by name only is provably built with the constant empty '
      'comment reference. FRESH-REFERENCE: every non-constant CommentReference is the index of a store entry pushed for it '
-     '(unique ownership; entries are rewritten in place). LINE-COMMENT-BREAK: a line-comment document is immediately followed '
+     '(unique ownership; entries are rewritten in place). COMMENT-ORDER: at each of the 53 concatenations of comment vectors '
+     'in the parser the receiver holds comments lexed no later than the appended ones (ages compared by dominance of the '
+     'producing lexer calls; parameters are oldest, pending_comments newest). ELEMENT-COMMENTS: every loop / per-element closure of the printer over comment-carrying nodes reads the element\'s '
+     'comment reference or delegates the element on every path (lazy closures do not count). LINE-COMMENT-BREAK: a line-comment document is immediately followed '
      'by the constant hard line break in the sequence it is emitted into. TRAVERSAL/SIBLING(T-prc): the printer reads every comment-reference slot. Does not decide '
      'idempotence of the layout nor that a stored comment is printed in the right place.',
-     [comment_linear.run, comment_linear.run_fresh_reference, printer_rules.run_id_comment_pair, printer_rules.run_line_comment_break, TI.make(['T-prc'])])
+     [comment_linear.run, comment_linear.run_fresh_reference, comment_linear.run_comment_order, printer_rules.run_id_comment_pair, printer_rules.run_line_comment_break, printer_rules.run_element_comments, TI.make(['T-prc'])])
 
 prop('C11', COMMON +
      'TRAVERSAL/SIBLING(T-gc): the PStr-bearing fields reachable from Module<Arc<Type>> (type walk over the ADT table) '
